@@ -22,6 +22,15 @@ def is_signed(event, config):
     """
     Ensure the event is correctly formatted and signed
     """
+    # Event.verify() checks the signature against the hash it recomputes,
+    # it does not look at the id (or the spelling of the hex fields) the client sent
+    for value, length in ((event.id, 64), (event.pubkey, 64), (event.sig, 128)):
+        if not isinstance(value, str) or len(value) != length or value != value.lower():
+            raise StorageError("invalid: Bad signature")
+    if event.id != event.compute_id(
+        event.pubkey, event.created_at, event.kind, event.tags, event.content
+    ):
+        raise StorageError("invalid: Bad signature")
     if not event.verify():
         raise StorageError("invalid: Bad signature")
 
